@@ -25,6 +25,13 @@ from floatcmp import f2b, b2f, close  # noqa: E402
 PROPS = ['FinVerif.Props.C09', 'FinVerif.Props.C09b', 'FinVerif.Props.C09c', 'FinVerif.Props.C09d']
 DRIVERS = ['FinVerif.Driver.C09']
 MEASURE = bool(os.environ.get('C09_MEASURE'))
+# witnesses of findings of the main component (C09/rolled-last-coupon-reads-beyond-own-knot, C09/inverted-quotes-negative-forward-hazard)
+CORPUS_MAIN = [
+    {'value_dt': [20, 12, 2030], 'tenors': ['6M', '1Y', '2Y', '3Y', '5Y'],
+     'spreads': [0.2908190548729381, 0.39260572407846644, 0.4943923932839947, 0.5, 0.5], 'recovery': 0.0, 'flat_rate': 0.05},
+    {'value_dt': [9, 8, 2016], 'tenors': ['1Y', '3Y', '5Y', '7Y', '10Y'],
+     'spreads': [0.3432974964181068, 0.3295655965613825, 0.3158336967046583, 0.302101796847934, 0.2883698969912097], 'recovery': 0.6, 'flat_rate': 0.08},
+]
 RULE = ('seeded CDS curves: valuation dates on and +-1..3 days around the 20 Mar/Jun/Sep/Dec rolls and random dates, tenor '
         'sets from 6M..10Y, spread term structures flat / steep / mildly inverted from 1bp to 5000bp, recoveries 0..0.9, '
         'flat discount rates -1%..8%; for each curve every input CDS is repriced and a second CDS with a different coupon, '
@@ -60,6 +67,58 @@ def run(ctx):
     def see(k, v):
         if v == v:
             worst[k] = max(worst.get(k, 0.0), float(v))
+
+    _DRIVER_OK['ok'] = bool(drivers_ok)
+    def curve_oracles(cs, vd, tenors, spreads, cdss, curve, libor, rec, rate):
+        """survival shape and repricing of one bootstrapped curve (main component and its corpus)"""
+        vals = np.array(curve._values, float)
+        # ---- survival curve: starts at 1, non-increasing, in (0,1]
+        q0 = float(curve.survival_prob(vd))
+        if q0 != 1.0:
+            ctx.violation('survival probability at the valuation date is not 1', dict(cs, q0=q0), clause='starts-at-one')
+        grid = [vd.add_days(int(k)) for k in np.linspace(0, 365 * 12, 60)]
+        qs = [float(curve.survival_prob(d)) for d in grid]
+        inc = max(qs[i + 1] - qs[i] for i in range(len(qs) - 1))
+        see('survival.increase', max(inc, 0.0))
+        if inc > 1e-12 or min(qs) <= 0.0 or max(qs) > 1.0 + 1e-12 or any(v != v for v in qs):
+            fnd, extra = ('C09/nonpositive-rates-wrong-root', {}) if rate <= 0.0 else (None, {})
+            if fnd is None and q0 == 1.0 and min(qs) > 0.0 and max(qs) <= 1.0 and not any(v != v for v in qs):
+                fnd, extra = _inverted_finding(vd, lambda: [CDS(vd, t, s) for t, s in zip(tenors, spreads)], libor, rec, rate, vals, see)
+            ctx.violation('survival curve is not non-increasing within (0,1]',
+                          dict(cs, knots=vals.tolist(), max_increase=inc, min=min(qs), max=max(qs), **extra),
+                          finding=fnd, clause='survival-monotone')
+        # ---- every input CDS is repriced: par spread = quote, clean PV = 0
+        for k, (cds, s) in enumerate(zip(cdss, spreads)):
+            ps = float(cds.par_spread(vd, curve, rec))
+            v = cds.value(vd, curve, rec)
+            see('reprice.rel', abs(ps - s) / s)
+            see('reprice.cleanpv/notional', abs(float(v['clean_pv'])) / cds.notional)
+            if not (abs(ps - s) <= 2e-4 * s + 1e-7):   # secant tol 1e-7 on the knot; measured worst 1.3e-4 relative (R = 0.9)
+                fnd = ('C09/nonpositive-rates-wrong-root' if rate <= 0.0 else
+                       'C09/low-spread-solver-tolerance' if (s < 1e-3 and abs(ps - s) < 2e-5) else None)
+                extra = {}
+                if fnd is None and k < len(cdss) - 1 and cds.payment_dts[-1] > cds.maturity_dt and abs(ps - s) <= 1e-3 * s:
+                    # C09/rolled-last-coupon-reads-beyond-own-knot: the quote IS repriced (same tolerance) by the curve truncated after
+                    # its own pillar; its last coupon is paid after its maturity knot; later pillars moved it
+                    try:
+                        head = [CDS(vd, t, x) for t, x in zip(tenors[:k + 1], spreads[:k + 1])]
+                        pt = float(head[k].par_spread(vd, CDSCurve(vd, head, libor, rec), rec))
+                    except Exception:  # noqa: BLE001
+                        pt = float('nan')
+                    extra = {'last_payment': str(cds.payment_dts[-1]), 'par_spread_on_curve_truncated_after_own_pillar': pt}
+                    if abs(pt - s) <= 2e-4 * s + 1e-7:
+                        fnd = FINDING_ROLLED
+                ctx.violation('bootstrapped curve does not return the input spread as par spread',
+                              dict(cs, maturity=str(cds.maturity_dt), quote=s, par_spread=ps, **extra), finding=fnd, clause='reprices')
+
+    # ---- corpus: witnesses of past findings of this component, run first on every run
+    for w in CORPUS_MAIN:
+        vd = Date(*w['value_dt'])
+        libor = DiscountCurveFlat(vd, w['flat_rate'])
+        cdss = [CDS(vd, t, s) for t, s in zip(w['tenors'], w['spreads'])]
+        curve_oracles(dict(w, corpus=True), vd, w['tenors'], w['spreads'], cdss, CDSCurve(vd, cdss, libor, w['recovery']), libor,
+                      w['recovery'], w['flat_rate'])
+    ctx.count('corpus_main', len(CORPUS_MAIN), len(CORPUS_MAIN), sample=CORPUS_MAIN[0])
 
     ops, impl, cases = [], [], []
     n_curves = 220 if quick else 3000
@@ -97,30 +156,7 @@ def run(ctx):
             continue
         built += 1
         times, vals = np.array(curve._times, float), np.array(curve._values, float)
-        # ---- survival curve: starts at 1, non-increasing, in (0,1]
-        q0 = float(curve.survival_prob(vd))
-        if q0 != 1.0:
-            ctx.violation('survival probability at the valuation date is not 1', dict(cs, q0=q0), clause='starts-at-one')
-        grid = [vd.add_days(int(k)) for k in np.linspace(0, 365 * 12, 60)]
-        qs = [float(curve.survival_prob(d)) for d in grid]
-        inc = max(qs[i + 1] - qs[i] for i in range(len(qs) - 1))
-        see('survival.increase', max(inc, 0.0))
-        if inc > 1e-12 or min(qs) <= 0.0 or max(qs) > 1.0 + 1e-12 or any(v != v for v in qs):
-            ctx.violation('survival curve is not non-increasing within (0,1]',
-                          dict(cs, knots=vals.tolist(), max_increase=inc, min=min(qs), max=max(qs)),
-                          finding='C09/nonpositive-rates-wrong-root' if rate <= 0.0 else None, clause='survival-monotone')
-        # ---- every input CDS is repriced: par spread = quote, clean PV = 0
-        for cds, s in zip(cdss, spreads):
-            ps = float(cds.par_spread(vd, curve, rec))
-            v = cds.value(vd, curve, rec)
-            see('reprice.rel', abs(ps - s) / s)
-            see('reprice.cleanpv/notional', abs(float(v['clean_pv'])) / cds.notional)
-            if not (abs(ps - s) <= 2e-4 * s + 1e-7):   # secant tol 1e-7 on the knot; measured worst 1.3e-4 relative (R = 0.9)
-                ctx.violation('bootstrapped curve does not return the input spread as par spread',
-                              dict(cs, maturity=str(cds.maturity_dt), quote=s, par_spread=ps),
-                              finding=('C09/nonpositive-rates-wrong-root' if rate <= 0.0 else
-                                       'C09/low-spread-solver-tolerance' if (s < 1e-3 and abs(ps - s) < 2e-5) else None),
-                              clause='reprices')
+        curve_oracles(cs, vd, tenors, spreads, cdss, curve, libor, rec, rate)
         # ---- value identities on a second contract
         mat = vd.add_tenor(rng.choice(['1Y', '2Y', '4Y', '5Y', '9Y']))
         if rng.random() < 0.5:
@@ -480,6 +516,94 @@ def _contract_arrays(c, vd):
     return pt, yf, acc, teff, tmat
 
 
+def _boot_op(vd, quotes, calls, curve, libor, rec, case):
+    """the BOOT op for a recorded build and the check of the driver's answer against the recording"""
+    import numpy as np
+    lt, ld = np.array(libor._times, float), np.array(libor._dfs, float)
+    vals = np.array(curve._values, float)
+    parts, scales = [], []
+    for c in quotes:
+        pt, yf, acc, teff, tmat = _contract_arrays(c, vd)
+        parts.append(f'{arr([teff, acc, tmat, c.running_cpn, c.notional, 1.0 if c.long_protect else 0.0])} {arr(pt)} {arr(yf)}')
+        scales.append(abs(float(c.prot_leg_pv(vd, curve, rec))) + abs(c.running_cpn * c.notional * float(c.risky_pv01(vd, curve)['dirty_rpv01'])) + 1e-300)
+    knots = [cl['left'] for cl in calls]
+    probes = [p for cl in calls for p in cl['probes']]
+    op = f'BOOT {f2b(rec)} 25 {arr(lt)} {arr(ld)} {arr(knots)} {arr(probes)} ' + ' '.join(parts)
+    fin = [float(c.value(vd, curve, rec)['clean_pv']) for c in quotes]
+    n = len(quotes)
+
+    def chkb(got, see, calls=calls, fin=fin, scales=scales, vals=vals.tolist(), n=n, case=case):
+        if got is None or len(got) != 4 * n + n + (n + 1):
+            return f'BOOT: driver answered {None if got is None else len(got)} numbers for {n} pillars'
+        msgs = []
+        for i, cl in enumerate(calls):
+            x0, fl, f1, f2 = got[4 * i: 4 * i + 4]
+            if x0 != cl['x0']:
+                msgs.append(f'pass {i}: start value model {x0!r} != solver call {cl["x0"]!r}')
+            for nm, g_, w_ in (('f(left)', fl, cl['f_left']), ('f(probe1)', f1, cl['f_probes'][0]), ('f(probe2)', f2, cl['f_probes'][1])):
+                see('model.BOOT.objective', abs(g_ - w_) / scales[i])
+                if not (abs(g_ - w_) <= 1e-9 * scales[i]):
+                    msgs.append(f'pass {i}: objective {nm} model {g_!r} != implementation {w_!r}')
+        for i in range(n):
+            g_, w_ = got[4 * n + i], fin[i]
+            see('model.BOOT.final-residual', abs(g_ - w_) / scales[i])
+            if not (abs(g_ - w_) <= 1e-9 * scales[i]):
+                msgs.append(f'final clean PV of quote {i}: model {g_!r} != implementation {w_!r}')
+        if got[5 * n:] != vals:
+            msgs.append(f'final knot values model {got[5 * n:]} != implementation {vals}')
+        return ('BOOT: ' + '; '.join(msgs[:3]) + ' on ' + json.dumps(case, default=str)[:600]) if msgs else None
+    return op, chkb
+
+
+FINDING_INVERTED = 'C09/inverted-quotes-negative-forward-hazard'
+_DRIVER_OK = {'ok': False}
+
+
+def _inverted_finding(vd, mk_contracts, libor, rec, rate, vals, see):
+    """Classifier of C09/inverted-quotes-negative-forward-hazard for a curve whose survival probability increases.  True only if
+    (a) the rate is positive and every knot is in (0,1]; (b) re-running the build with the solver intercepted gives the same knots;
+    (c) every pillar whose knot is ABOVE the previous one is quoted BELOW the previous pillar (inverted), its solver call ended on
+    a root (|clean PV| <= 2e-7 x notional) and the objective at (almost) zero forward hazard is already positive and grows with
+    the hazard (so no non-negative forward hazard reprices the quote: the quotes themselves imply the negative forward hazard);
+    (d) the Lean model of the fold reproduces start values, objective values and final knots (op BOOT)."""
+    if rate <= 0.0 or not _DRIVER_OK['ok'] or any(not (0.0 < float(v) <= 1.0) for v in vals):
+        return None, {}
+    quotes = mk_contracts()
+    if any(len([d for d in c.payment_dts if d > vd]) < 2 or not c.long_protect for c in quotes):
+        return None, {}
+    try:
+        curve, calls = _record_build(vd, quotes, libor, rec)
+    except Exception:  # noqa: BLE001
+        return None, {}
+    kn = [float(x) for x in curve._values]
+    if kn != [float(v) for v in vals] or len(calls) != len(quotes):
+        return None, {}
+    up = [k for k in range(1, len(kn)) if kn[k] > kn[k - 1]]
+    if not up:
+        return None, {}
+    detail = []
+    for k in up:                       # knot k belongs to pillar k-1
+        i = k - 1
+        cl, c = calls[i], quotes[i]
+        if i == 0 or not (c.running_cpn < quotes[i - 1].running_cpn):
+            return None, {}
+        if not (abs(cl['f_left']) <= 2e-7 * c.notional and cl['f_probes'][1] > 0.0 and cl['f_probes'][0] > cl['f_probes'][1]):
+            return None, {}
+        t0, t1 = float(curve._times[k - 1]), float(curve._times[k])
+        detail.append({'pillar': i, 'quote': c.running_cpn, 'previous_quote': quotes[i - 1].running_cpn, 'knot': kn[k], 'previous_knot': kn[k - 1],
+                       'forward_hazard': -math.log(kn[k] / kn[k - 1]) / (t1 - t0),
+                       'clean_pv_at_0.999x_and_0.97x_previous_knot': [cl['f_probes'][1], cl['f_probes'][0]], 'clean_pv_at_solved_knot': cl['f_left']})
+    op, chkb = _boot_op(vd, quotes, calls, curve, libor, rec, {'knots': kn})
+    try:
+        out = exedriver.run('c09driver', 'C09', [op], par=False)[0]
+    except C.DriverError:
+        return None, {}
+    got = [b2f(x) for x in out.split()] if not out.startswith('bad') else None
+    if chkb(got, see) is not None:
+        return None, {}
+    return FINDING_INVERTED, {'negative_forward_hazard_segments': detail, 'lean_fold_reproduces_knots': True}
+
+
 def _conv_eval(case, want_ops=True):
     """Rebuild the case from its JSON description, run every direct oracle; returns (failures, ops, checks, stats).
     failure = (clause, what, details, finding-or-None).  Used by run() and replay()."""
@@ -534,7 +658,8 @@ def _conv_eval(case, want_ops=True):
     if not shape_ok:
         fails.append(('conv-survival-monotone', 'bootstrapped survival curve does not start at 1 / is not non-increasing within (0,1]',
                       {'knots': vals.tolist(), 'max_increase': inc, 'min': min(qs), 'max': max(qs)},
-                      FINDING_SINGLE if single_q else FINDING_MISINDEX if mis_q else None))
+                      FINDING_SINGLE if single_q else FINDING_MISINDEX if mis_q else
+                      _inverted_finding(vd, lambda: [_mk_cds(step_in, q) for q in case['quotes']], libor, rec, rate, vals, lambda *_: None)[0]))
     # ---- every quoted contract repriced by the final curve; locality against the pass that solved it
     for i, (c, q, call) in enumerate(zip(quotes, case['quotes'], calls)):
         s = q['coupon']
@@ -667,37 +792,8 @@ def _conv_eval(case, want_ops=True):
     # ---- the bootstrap fold (BOOT): real `_build_curve` with the solver intercepted vs the Lean fold replayed with the values the
     # solver left in the knots
     if want_ops and all(n >= 2 for n in n_pay) and len(calls) == len(quotes):
-        parts, scales = [], []
-        for c in quotes:
-            pt, yf, acc, teff, tmat = _contract_arrays(c, vd)
-            parts.append(f'{arr([teff, acc, tmat, c.running_cpn, c.notional, 1.0 if c.long_protect else 0.0])} {arr(pt)} {arr(yf)}')
-            scales.append(abs(float(c.prot_leg_pv(vd, curve, rec))) + abs(c.running_cpn * c.notional * float(c.risky_pv01(vd, curve)['dirty_rpv01'])) + 1e-300)
-        knots = [cl['left'] for cl in calls]
-        probes = [p for cl in calls for p in cl['probes']]
-        ops.append(f'BOOT {f2b(rec)} 25 {arr(lt)} {arr(ld)} {arr(knots)} {arr(probes)} ' + ' '.join(parts))
-        fin = [float(c.value(vd, curve, rec)['clean_pv']) for c in quotes]
-        n = len(quotes)
-
-        def chkb(got, see, calls=calls, fin=fin, scales=scales, vals=vals.tolist(), n=n, case=case):
-            if got is None or len(got) != 4 * n + n + (n + 1):
-                return f'BOOT: driver answered {None if got is None else len(got)} numbers for {n} pillars'
-            msgs = []
-            for i, cl in enumerate(calls):
-                x0, fl, f1, f2 = got[4 * i: 4 * i + 4]
-                if x0 != cl['x0']:
-                    msgs.append(f'pass {i}: start value model {x0!r} != solver call {cl["x0"]!r}')
-                for nm, g_, w_ in (('f(left)', fl, cl['f_left']), ('f(probe1)', f1, cl['f_probes'][0]), ('f(probe2)', f2, cl['f_probes'][1])):
-                    see('model.BOOT.objective', abs(g_ - w_) / scales[i])
-                    if not (abs(g_ - w_) <= 1e-9 * scales[i]):
-                        msgs.append(f'pass {i}: objective {nm} model {g_!r} != implementation {w_!r}')
-            for i in range(n):
-                g_, w_ = got[4 * n + i], fin[i]
-                see('model.BOOT.final-residual', abs(g_ - w_) / scales[i])
-                if not (abs(g_ - w_) <= 1e-9 * scales[i]):
-                    msgs.append(f'final clean PV of quote {i}: model {g_!r} != implementation {w_!r}')
-            if got[5 * n:] != vals:
-                msgs.append(f'final knot values model {got[5 * n:]} != implementation {vals}')
-            return ('BOOT: ' + '; '.join(msgs[:3]) + ' on ' + json.dumps(case, default=str)[:600]) if msgs else None
+        op, chkb = _boot_op(vd, quotes, calls, curve, libor, rec, case)
+        ops.append(op)
         checks.append(('CDSCurve._build_curve(BOOT)', chkb))
     return fails, ops, checks, stats
 
